@@ -30,6 +30,7 @@ static int inited = 0;
 
 static int arm_kind = 0, arm_nth = 0, arm_err = 0, arm_count = 0, arm_pending_fail = 0;
 static long arm_short = -1;
+static int arm_fired = 0; /* 0 nothing injected yet, 1 a short write without error, 2 an error was returned to the caller */
 
 static ssize_t (*real_write)(int, const void *, size_t);
 static ssize_t (*real_pwrite64)(int, const void *, size_t, off64_t);
@@ -155,7 +156,10 @@ void jshim_arm(int kind, int nth, int err, long short_len) {
     arm_short = short_len;
     arm_count = 0;
     arm_pending_fail = 0;
+    arm_fired = 0;
 }
+
+int jshim_fired(void) { return arm_fired; }
 
 void jshim_disarm(void) {
     arm_kind = 0;
@@ -235,6 +239,7 @@ ssize_t write(int fd, const void *buf, size_t count) {
         if (arm_pending_fail) {
             arm_pending_fail = 0;
             arm_kind = 0;
+            arm_fired = 2;
             logf_("F write %d\n", arm_err);
             errno = arm_err;
             return -1;
@@ -242,14 +247,18 @@ ssize_t write(int fd, const void *buf, size_t count) {
         if (arm_kind == 1) {
             arm_count++;
             if (arm_count == arm_nth) {
-                if (arm_err == 0 && arm_short > 0 && (size_t)arm_short < count) {
-                    /* a short write that is not followed by an error (the caller must retry the rest) */
-                    ssize_t r = real_write(fd, buf, (size_t)arm_short);
+                if (arm_err == 0) {
+                    /* a short write that is not followed by an error (the caller must retry the rest);
+                       a call shorter than the requested length is cut in half instead */
+                    size_t n0 = (arm_short > 0 && (size_t)arm_short < count) ? (size_t)arm_short : count / 2;
+                    if (n0 == 0) n0 = count;
+                    ssize_t r = real_write(fd, buf, n0);
                     if (r > 0) {
                         log_write(fd, offs[fd], buf, (size_t)r);
                         offs[fd] += r;
                     }
                     arm_kind = 0;
+                    if (arm_fired < 1) arm_fired = 1;
                     logf_("F shortwrite %ld\n", arm_short);
                     return r;
                 }
@@ -265,14 +274,16 @@ ssize_t write(int fd, const void *buf, size_t count) {
                     if (n == 0) {
                         arm_pending_fail = 0;
                         arm_kind = 0;
-                        logf_("F write %d\n", arm_err);
+                        arm_fired = 2;
+            logf_("F write %d\n", arm_err);
                         errno = arm_err;
                         return -1;
                     }
                     return r;
                 }
                 arm_kind = 0;
-                logf_("F write %d\n", arm_err);
+                arm_fired = 2;
+            logf_("F write %d\n", arm_err);
                 errno = arm_err;
                 return -1;
             }
@@ -315,6 +326,7 @@ static int sync_common(int fd, int (*real)(int), const char *name) {
             arm_count++;
             if (arm_count == arm_nth) {
                 arm_kind = 0;
+                arm_fired = 2;
                 logf_("F %s %d\n", name, arm_err);
                 errno = arm_err;
                 return -1;
